@@ -369,9 +369,11 @@ K('C06', 'P4.isolation_both_garbled', 'teos', _w + 'c06_handle_breaches_both_gar
 TWIN_WHAT = ('encoding validation (sampling, not a solver verdict): pseudo-random operation sequences (VERIF_SEED) run natively on the real sqlite DBM and on '
              'models/dbm_tower.rs; every observable result (rows, existence, lengths, owners, selections by status/locator, cascades, error/ok) must agree')
 T('C08', 'T1.dbm_model_twin', TWIN_WHAT)
-T('C04', 'T1.dbm_model_twin', TWIN_WHAT, 'thorough')
-T('C09', 'T1.dbm_model_twin', TWIN_WHAT, 'thorough')
+T('C04', 'T1.dbm_model_twin', TWIN_WHAT)
+T('C09', 'T1.dbm_model_twin', TWIN_WHAT)
 T('C01', 'T1.dbm_model_twin', TWIN_WHAT)
+T('C06', 'T1.dbm_model_twin', TWIN_WHAT)
+T('C07', 'T1.dbm_model_twin', TWIN_WHAT)
 
 # retry path (Retrier::run) — Engine M
 M('C05', 'M2.retry_bookkeeping', 'retrier_run', 'retry path: a pending appointment is removed only after its receipt (accepted) or its invalid copy (rejected) was stored, exactly one of the two; whoever stores one also removes the pending record', part='bookkeeping')
@@ -435,6 +437,9 @@ M('C14', 'M4.flag_conflict', 'insert_conflict', 'one step of flag_misbehaving_to
 M('C11', 'M2.purge_race', 'purge_race', 'no interleaving of an API handler (add_appointment / get_appointment / get_subscription_info) with the block that purges its user lets the handler unwrap a failed look-up of the user it authenticated in an earlier critical section (handler abort)')
 M('C13', 'M5.data_not_dropped', 'retry_data_kept', 'RetryManager::manage_retry: a received (tower, data) message is either for an abandoned tower, handed to add_pending_appointments, or met by an idle retrier (which keeps nothing in memory and reloads all pending appointments from the database when woken): data for a stopped or running retrier is never dropped')
 M('C11', 'M3.purge_vs_store', 'purge_vs_store', 'no interleaving orders the purge of a user (memory, then rows) between the charge and the store of add_appointment such that the store result is unwrapped (foreign-key failure with the dbm and cache locks held); known finding F22')
+K('C11', 'K3.in_mempool_retry_waits', 'teos', _ca + 'c12_k1_in_mempool_through_outage', 'a node query interrupted by a transport error lowers the reachable flag before it is re-issued, so the retry parks on the condvar instead of recursing without bound (stack overflow aborts the process with carrier / index locks held)')
+K('C11', 'K3.send_retry_waits', 'teos', _ca + 'c12_k1_send_through_outage', 'a submission interrupted by a transport error lowers the reachable flag before it is re-issued (bounded retry, no unbounded recursion)')
+M('C05', 'M6.mirror_reload', 'mirror_reload', 'start-up re-establishes the mirror invariant M5 assumes: DBM::load_towers fills the in-memory pending / invalid set of each tower from the table the corresponding recorder inserts into (status constant -> table constant -> with_appointments argument -> TowerSummary field, read from the MIR)')
 M('C08', 'M1.single_height_read', 'single_height_read', 'Watcher::add_appointment reads the tower height once per accepted request: the start block in the receipt and the one stored with the appointment are the same number whatever block events interleave')
 M('C06', 'M2.uuid_derivation', 'uuid_derivation', 'UUID::new hashes locator || full serialised user key (PublicKey::serialize): distinct users never share a uuid for the same locator')
 K('C11', 'K1.handle_reorged_panic_free', 'teos', _r + 'c04_p3_handle_reorged', 'handle_reorged_txs does not panic for any node reply to the dispute / penalty re-submission (incl. already-in-chain)')
